@@ -302,7 +302,7 @@ class Inquiry(SCSICommand):
             return data["md5_logical_identifier"]
 
         if _type == cls.DESIGNATOR.SCSI_NAME_STRING:
-            return ["scsi_name_string"]
+            return data["scsi_name_string"]
 
         if _type == cls.DESIGNATOR.PCI_EXPRESS_ROUTING_ID:
             _r = bytearray(8)
